@@ -1,5 +1,5 @@
 /* General conversion harness (C01, C02b, C04, C08, C16, C20 ...).
-   Input line:  <format> <extensions> <language> <hex source> [D]
+   Input line:  <format> <extensions> <language> <hex source> [D [<hex directory>]]
    (D = use mmd_string_convert_to_data: binary / packaged result of the recorded length)
    Each case runs in a forked child, so exit() inside the library, crashes and stderr output are
    observed per case.  Output line:
@@ -52,7 +52,10 @@ int main(void) {
 			token_pool_init();
 			char * out; size_t n;
 			if (nf >= 5 && f[4][0] == 'D') {
-				DString * dd = mmd_string_convert_to_data(src, ext, (short) fmt, (short) lang, NULL);
+				/* optional sixth field: hex of the directory assets are looked up in */
+				char * dir = NULL; size_t dl;
+				if (nf >= 6) dir = h_unhex(f[5], &dl);
+				DString * dd = mmd_string_convert_to_data(src, ext, (short) fmt, (short) lang, dir);
 				out = dd ? dd->str : NULL; n = dd ? dd->currentStringLength : 0;
 			} else {
 				out = mmd_string_convert(src, ext, (short) fmt, (short) lang);
